@@ -212,6 +212,21 @@ func opSaveProj(args []string) string {
 	return "ok " + H(root.Buf())
 }
 
+// guidstr <16 bytes> -> the text GUID.String() gives; guidparse <text> -> the 16 bytes guid.Parse gives
+func opGUIDStr(args []string) string {
+	var g guid.GUID
+	copy(g[:], UnH(args[0]))
+	return "ok " + H([]byte(g.String()))
+}
+
+func opGUIDParse(args []string) string {
+	g, err := guid.Parse(string(UnH(args[0])))
+	if err != nil {
+		return "err"
+	}
+	return "ok " + H(g[:])
+}
+
 func firstDiff(a, b []byte) string {
 	i := 0
 	for i < len(a) && i < len(b) && a[i] == b[i] {
@@ -248,6 +263,10 @@ func pRoundTrip(args []string) string {
 		return "skip"
 	}
 	if errDir != nil {
+		if strings.Contains(errDir.Error(), "to MEName") {
+			// flash images whose ME partition table has a name that is not valid UTF-8
+			return "FAIL me-name-not-utf8 dir-save-error " + oneLine(errDir.Error())
+		}
 		return "FAIL dir-save-error " + oneLine(errDir.Error())
 	}
 	a, _ := os.ReadFile(out)
@@ -382,6 +401,85 @@ func depexString(d []uefi.DepExOp) string {
 		return "-"
 	}
 	return sb.String()
+}
+
+// invalid lists what is wrong with the sizes and checksums of a parsed tree, by the rules of the PI
+// specification (independent of visitors.Validate).
+func invalid(f uefi.Firmware, at string) []string {
+	var out []string
+	add := func(m string) { out = append(out, at+": "+m) }
+	switch n := f.(type) {
+	case *uefi.BIOSRegion:
+		if uint64(len(n.Buf())) != n.Length {
+			add("region length")
+		}
+		for i, e := range n.Elements {
+			out = append(out, invalid(e.Value, fmt.Sprintf("%s/e%d", at, i))...)
+		}
+	case *uefi.FirmwareVolume:
+		b := n.Buf()
+		if uint64(len(b)) != n.Length {
+			add("volume length field")
+		}
+		if int(n.HeaderLen) <= len(b) && n.HeaderLen%2 == 0 {
+			var sum uint16
+			for i := 0; i+1 < int(n.HeaderLen); i += 2 {
+				sum += uint16(b[i]) | uint16(b[i+1])<<8
+			}
+			if sum != 0 {
+				add("volume header checksum")
+			}
+		} else {
+			add("volume header length")
+		}
+		k := 0
+		for _, x := range n.Files {
+			if isPadFile(x) {
+				continue
+			}
+			out = append(out, invalid(x, fmt.Sprintf("%s/f%d", at, k))...)
+			k++
+		}
+	case *uefi.File:
+		b := n.Buf()
+		hl := 24
+		if n.Header.Attributes.IsLarge() {
+			hl = 32
+		}
+		if uint64(len(b)) != n.Header.ExtendedSize || len(b) < hl {
+			add("file size field")
+			break
+		}
+		var hs, bs byte
+		for _, c := range b[:hl] {
+			hs += c
+		}
+		hs -= b[17] + b[23]
+		if hs != 0 {
+			add("file header checksum")
+		}
+		for _, c := range b[hl:] {
+			bs += c
+		}
+		if n.Header.Attributes.HasChecksum() {
+			if bs+b[17] != 0 {
+				add("file body checksum")
+			}
+		} else if b[17] != 0xAA {
+			add("file body checksum constant")
+		}
+		for i, x := range n.Sections {
+			out = append(out, invalid(x, fmt.Sprintf("%s/s%d", at, i))...)
+		}
+	case *uefi.Section:
+		if uint64(len(n.Buf())) != uint64(n.Header.ExtendedSize) {
+			add("section size field")
+		}
+		for i, e := range n.Encapsulated {
+			out = append(out, invalid(e.Value, fmt.Sprintf("%s/x%d", at, i))...)
+		}
+	}
+	return out
 }
 
 // ---------- editing summary.json as generic JSON ----------
@@ -610,18 +708,37 @@ func pEdit(args []string) string {
 			return "FAIL edit-had-no-effect (edit " + kind + ")"
 		}
 	}
-	// the edited image validates
-	v := &visitors.Validate{}
-	if err := v.Run(t1); err != nil {
+	// the edited image validates: nothing is wrong in it that is not already wrong in the unedited
+	// round trip (opaque files keep whatever checksums they came with)
+	bad0 := map[string]bool{}
+	for _, e := range invalid(t0, "") {
+		bad0[e] = true
+	}
+	for _, e := range invalid(t1, "") {
+		if !bad0[e] {
+			return "FAIL edited-image-invalid " + oneLine(e)
+		}
+	}
+	// fiano's own validator as well. Its file body check demands sum(body) == 0 instead of
+	// sum(body) + IntegrityCheck.File == 0 (reported to C09), so that message is left out.
+	v0, v1 := &visitors.Validate{}, &visitors.Validate{}
+	_ = v0.Run(t0)
+	if err := v1.Run(t1); err != nil {
 		return "FAIL validate-error " + oneLine(err.Error())
 	}
-	if len(v.Errors) != 0 {
-		// only errors the unedited round trip does not have count
-		v0 := &visitors.Validate{}
-		_ = v0.Run(t0)
-		if len(v.Errors) > len(v0.Errors) {
-			return "FAIL edited-image-does-not-validate " + oneLine(v.Errors[0].Error())
+	seen := map[string]int{}
+	for _, e := range v0.Errors {
+		seen[e.Error()]++
+	}
+	for _, e := range v1.Errors {
+		m := e.Error()
+		if strings.Contains(m, "body checksum failure! sum was") {
+			continue
 		}
+		if seen[m] == 0 {
+			return "FAIL edited-image-does-not-validate " + oneLine(m)
+		}
+		seen[m]--
 	}
 	return "ok"
 }
@@ -773,22 +890,127 @@ func genDepexBytes(r *Rng) []byte {
 	return append(b, 8)
 }
 
+// nvarStoreFile builds a raw file carrying a small, canonical NVAR store: valid entries with an inline
+// GUID and an ASCII name (distinct names), erased free space, no GUID table.
+func nvarStoreFile(r *Rng) *uefigen.File {
+	var store []byte
+	n := r.Range(1, 4)
+	for i := 0; i < n; i++ {
+		var body []byte
+		body = append(body, r.Bytes(16)...)
+		name := fmt.Sprintf("Var%d%c", i, 'A'+r.Intn(26))
+		body = append(body, name...)
+		body = append(body, 0)
+		body = append(body, r.Bytes(r.Range(1, 12))...)
+		sz := 10 + len(body)
+		store = append(store, 'N', 'V', 'A', 'R', byte(sz), byte(sz>>8), 0xFF, 0xFF, 0xFF, 0x86)
+		store = append(store, body...)
+	}
+	for i := r.Range(16, 64); i > 0; i-- {
+		store = append(store, 0xFF)
+	}
+	f := &uefigen.File{Type: 1, State: 0xF8, Body: store}
+	copy(f.GUID[:], uefi.NVAR[:])
+	return f
+}
+
+// countSections parses img in the generator process and counts the sections each edit kind applies to.
+func countSections(img []byte) (files, ui, version, depex int) {
+	reset()
+	root, err := uefi.Parse(append([]byte{}, img...))
+	if err != nil {
+		return
+	}
+	var walk func(f uefi.Firmware)
+	walk = func(f uefi.Firmware) {
+		switch n := f.(type) {
+		case *uefi.BIOSRegion:
+			for _, e := range n.Elements {
+				walk(e.Value)
+			}
+		case *uefi.FirmwareVolume:
+			for _, x := range n.Files {
+				walk(x)
+			}
+		case *uefi.File:
+			if len(n.Sections) > 0 {
+				files++
+			}
+			for _, x := range n.Sections {
+				walk(x)
+			}
+		case *uefi.Section:
+			switch n.Header.Type {
+			case uefi.SectionTypeUserInterface:
+				ui++
+			case uefi.SectionTypeVersion:
+				version++
+			case uefi.SectionTypeDXEDepEx, uefi.SectionTypePEIDepEx, uefi.SectionMMDepEx:
+				depex++
+			}
+			for _, e := range n.Encapsulated {
+				walk(e.Value)
+			}
+		}
+	}
+	walk(root)
+	return
+}
+
+func hasFlashSig(b []byte) bool {
+	sig := []byte{0x5a, 0xa5, 0xf0, 0x0f}
+	return len(b) >= 20 && (bytes.Equal(b[16:20], sig) || bytes.Equal(b[0:4], sig))
+}
+
 func gen(r *Rng, tier string, emit Emit) {
-	n := 110
+	n := 120
+	maxCorpus := 40
 	if tier == "thorough" {
-		n = 3000
+		n = 4000
+		maxCorpus = 100000
 	}
 	repo := os.Getenv("VERIF_REPO_PATH")
 	if repo == "" {
 		repo = "/repo"
 	}
-	// historical sample images that are bare volumes/regions
+	// the text form of GUIDs (every GUID of summary.json goes through String and Parse)
+	ng := 60
+	if tier == "thorough" {
+		ng = 2000
+	}
+	for i := 0; i < ng; i++ {
+		rr := r.Fork(uint64(1000000 + i))
+		g := rr.Bytes(16)
+		emit("C", "guidstr", H(g))
+		var gg guid.GUID
+		copy(gg[:], g)
+		txt := []byte(gg.String())
+		switch rr.Intn(6) {
+		case 0:
+			txt = bytes.ToLower(txt)
+		case 1:
+			txt = bytes.ReplaceAll(txt, []byte("-"), nil)
+		case 2:
+			txt[rr.Intn(len(txt))] = byte(rr.Pick('G', 'x', '-', ' ', '0', 'f'))
+		case 3:
+			txt = txt[:rr.Intn(len(txt))]
+		case 4:
+			txt = append(txt, byte(rr.Pick('0', 'A', '-')))
+		}
+		emit("C", "guidparse", H(txt))
+	}
+	// historical sample inputs (pkg/uefi/testdata/fuzz_in.txz) that fiano accepts: bare regions/volumes
+	// and flash images with descriptor, ME and raw regions
+	used := 0
 	for _, b := range uefigen.HistoricalCorpus(repo, 1<<16) {
-		if len(b) == 0 {
+		if len(b) == 0 || !parses(b) {
 			continue
 		}
+		if used++; used > maxCorpus {
+			break
+		}
 		emit("P", "p_roundtrip", H(b), "x")
-		if len(b) <= 6000 {
+		if len(b) <= 8192 && !hasFlashSig(b) {
 			emitTables(emit, b)
 			emit("C", "xpaths", H(b))
 			emit("C", "dirsave", H(b))
@@ -798,7 +1020,8 @@ func gen(r *Rng, tier string, emit Emit) {
 		rr := r.Fork(uint64(it))
 		var img []byte
 		canonical := "id"
-		if it%4 == 3 {
+		modelled := true
+		if it%8 == 7 {
 			// compressed sections (LZMA, LZMA+x86, ZLIB) around leaves and nested volumes
 			kinds := [][]int{{1}, {2}, {3}, {1, 2, 3}}[rr.Intn(4)]
 			o := uefigen.COpts{Depth: rr.Pick(0, 1, 1, 2), Kinds: kinds, Enc: realEnc, DataOff: rr.Chance(1, 3), PlainNest: true}
@@ -813,9 +1036,13 @@ func gen(r *Rng, tier string, emit Emit) {
 			reg := uefigen.GenRegion(rr, o)
 			// duplicate GUIDs: copy a file's GUID onto others of the same and of other volumes
 			var files []*uefigen.File
+			var vols []*uefigen.Vol
 			for _, e := range reg.Elems {
 				if e.Vol != nil {
 					files = append(files, e.Vol.Files...)
+					if e.Vol.FSGUID == uefigen.FFS2 || e.Vol.FSGUID == uefigen.FFS3 {
+						vols = append(vols, e.Vol)
+					}
 				}
 			}
 			if len(files) >= 2 && rr.Chance(1, 2) {
@@ -826,23 +1053,55 @@ func gen(r *Rng, tier string, emit Emit) {
 					}
 				}
 			}
+			if len(vols) > 0 && rr.Chance(1, 6) {
+				// an NVAR store (its entries are not modelled here: implementation oracles only)
+				v := vols[rr.Intn(len(vols))]
+				v.Files = append(v.Files, nvarStoreFile(rr))
+				modelled = false
+				canonical = "x"
+			}
 			img, _ = uefigen.EmitRegion(reg)
 		}
 		if len(img) == 0 || len(img) > 60000 {
 			continue
 		}
 		emit("P", "p_roundtrip", H(img), canonical)
-		if len(img) <= 12000 {
+		if len(img) <= 12000 && modelled {
 			emitTables(emit, img)
 			emit("C", "xpaths", H(img))
 			emit("C", "dirsave", H(img))
 			emit("C", "saveproj", H(img))
 		}
-		// single-field edits
-		emit("P", "p_edit", H(img), "guid", N(uint64(rr.Intn(16))), H(rr.Bytes(16)))
-		emit("P", "p_edit", H(img), "ui", N(uint64(rr.Intn(16))), H(genText(rr)))
-		emit("P", "p_edit", H(img), "version", N(uint64(rr.Intn(16))), H(genText(rr)))
-		emit("P", "p_edit", H(img), "depex", N(uint64(rr.Intn(16))), H(genDepexBytes(rr)))
+		// single-field edits of summary.json, on the fields the image has
+		nf, nu, nv, nd := countSections(img)
+		type ed struct {
+			kind string
+			n    int
+			val  []byte
+		}
+		var eds []ed
+		if nf > 0 {
+			eds = append(eds, ed{"guid", nf, rr.Bytes(16)})
+		}
+		if nu > 0 {
+			eds = append(eds, ed{"ui", nu, genText(rr)})
+		}
+		if nv > 0 {
+			eds = append(eds, ed{"version", nv, genText(rr)})
+		}
+		if nd > 0 {
+			eds = append(eds, ed{"depex", nd, genDepexBytes(rr)})
+		}
+		maxEdits := 2
+		if tier == "thorough" {
+			maxEdits = 4
+		}
+		for k := 0; k < maxEdits && len(eds) > 0; k++ {
+			i := rr.Intn(len(eds))
+			e := eds[i]
+			eds = append(eds[:i], eds[i+1:]...)
+			emit("P", "p_edit", H(img), e.kind, N(uint64(rr.Intn(e.n))), H(e.val))
+		}
 	}
 }
 
@@ -851,6 +1110,8 @@ func main() {
 	Register("xpaths", opXPaths)
 	Register("dirsave", opDirSave)
 	Register("saveproj", opSaveProj)
+	Register("guidstr", opGUIDStr)
+	Register("guidparse", opGUIDParse)
 	Register("p_roundtrip", pRoundTrip)
 	Register("p_edit", pEdit)
 	Main(gen)
